@@ -384,7 +384,12 @@ def compile_mem_sequence(seq):
                 hh -= 1
             hh += 1
         if op in ("MSTORE", "MSTORE8", "SSTORE"):
-            sub.append("DUP%d" % (hh + 2 + vi + 1))
+            if isinstance(vi, tuple) and vi[0] == "c":          # a constant value
+                sub.append("PUSH %x" % vi[1])
+            elif isinstance(vi, tuple) and vi[0] == "in":       # an absolute input (0 = x, 1 = y: value and address related)
+                sub.append("DUP%d" % (hh + vi[1] + 1))
+            else:
+                sub.append("DUP%d" % (hh + 2 + vi + 1))
             hh += 1
             emit_addr()
             sub.append(op)
@@ -393,7 +398,7 @@ def compile_mem_sequence(seq):
             emit_addr()
             sub.append(op)
         else:
-            sub.append("PUSH 20")
+            sub.append("PUSH %x" % (vi[1] if isinstance(vi, tuple) and vi[0] == "len" else 0x20))
             hh += 1
             emit_addr()
             sub.append(op)
@@ -401,6 +406,26 @@ def compile_mem_sequence(seq):
         h = hh
         code += sub
     return " ".join(code)
+
+
+def f_mem_shared_values(deltas=(0, 1, 31, 32), tail=(None, "MLOAD", "KECCAK256")):
+    """two stores of the *same* value (same input, same constant, or the address variable itself) to equal, overlapping
+    or unrelated places, optionally followed by a load / hash that observes the result: the order of two stores of one
+    value still matters in memory when their byte ranges overlap without coinciding"""
+    atoms = [a for _, a in _addr_atoms(list(deltas))]
+    out = []
+    for group, loads in ((("MSTORE", "MSTORE8"), [t for t in tail if t != "SLOAD"]), (("SSTORE",), [None, "SLOAD"])):
+        for o1 in group:
+            for o2 in group:
+                for a1 in atoms:
+                    for a2 in atoms:
+                        for val in (0, ("c", 0), ("c", 0xff01), ("in", 0)):
+                            for t in loads:
+                                seq = [(o1, a1, val), (o2, a2, val)]
+                                if t is not None:
+                                    seq.append((t, a1 if isinstance(a1, int) else a2, 0))
+                                out.append(compile_mem_sequence(seq))
+    return list(dict.fromkeys(out))
 
 
 def f_mem_byte_in_word(deltas=(0, 1, 31, 32)):
